@@ -199,6 +199,13 @@ def check_c15(c, af, a, mf):
         return {"why": f"enum definition makes the generator {oc}", "finding": None}
     if f.get("base") == "int":
         return None   # the property text speaks of bit patterns; signed fields are decided by impl = model only
+    # further inline enums of the same register are judged on their own (nothing carries over from one enum to the next)
+    for f2 in r["fields"][1:]:
+        cv = f2.get("conversion") or {}
+        if "enum" in cv and f2.get("base") != "int":
+            ok2, reasons2 = enum_ok(f2["end"] - f2["start"], cv["enum"]["variants"], cv["try"])
+            if not ok2:
+                ok, reasons = False, reasons + ["second enum: " + x for x in reasons2]
     if ok:
         if oc == "error" and af.get("kind") in ENUM_KINDS:
             return {"why": "a well-formed enum is rejected: " + af["kind"], "finding": None}
@@ -213,7 +220,7 @@ def check_c15(c, af, a, mf):
     if oc == "ok":
         fid = None
         if agree(af, mf):
-            if set(reasons) <= {"dup_number", "negative"}:
+            if set(reasons) <= {"dup_number", "negative"} and reasons:
                 names_differ = True
                 fid = "F8a-enum-duplicate-number-under-different-names" if "dup_number" in reasons else "F8b-enum-negative-number-on-uint"
                 if "dup_number" in reasons and "negative" in reasons:
@@ -322,10 +329,13 @@ def check_c07(c, af, a, mf):
                     return None
                 return {"why": f"variant {v['name']} -> {n} -> {back} does not round-trip", "finding": None}
     # infallible getters are total on every bit pattern of their field
+    by_name = {x["name"]: x for x in af.get("enums", [])}
     for ff in [x for fs in af["field_sets"] for x in fs["fields"]]:
         g = ff.get("getter")
         if g and g["conv"] == "unsafe_into":
             w = g["end"] - g["start"]
+            en = by_name.get(str(g.get("type") or "").replace(" ", "").split("::")[-1], en)
+            from_num = enum_semantics(en)[0]
             if en.get("try_from"):
                 for raw in range(1 << min(w, 14)):
                     if from_num(raw)[0] == "err":
@@ -1401,6 +1411,10 @@ def check_c09(c, af, a, mf):
         return None if (v and v.get("finding")) else v
     if c.get("profile") != "cmdshape" or af.get("outcome") != "ok":
         return None
+    # the address (and index bound) each command accessor computes, refs with their own repeat included
+    v = check_c04(dict(c, profile="mixed"), af, a, mf)
+    if v and not v.get("finding"):
+        return v
     nm = c.get("names") or {}
     pas = lambda x: nm.get("pascal", {}).get(x, x)
     cmds = {o["name"]: o for o in all_objects(c["adef"]["objects"]) if o["kind"] == "command"}
